@@ -21,7 +21,7 @@ VARIABLES l, bad,
           selected    \* devices handed out by select_drive so far
 tvars == <<vars, l, bad, devOf, group, selected>>
 Ev == TraceLog[l]
-NoGroup == [k |-> 0, how |-> "", old |-> <<>>, n |-> 0]
+NoGroup == [k |-> 0, how |-> "", old |-> <<>>, n |-> 0, set |-> {}]
 Ext(f, d, v) == [x \in DOMAIN f \cup {d} |-> IF x = d THEN v ELSE f[x]]
 TInit == /\ drives = <<>> /\ policy = "PHYSICAL" /\ nimg = 0 /\ hist = <<>>
          /\ l = 1 /\ bad = {} /\ devOf = <<>> /\ group = NoGroup /\ selected = {}
@@ -29,17 +29,22 @@ Step(ev) ==
     CASE ev.e = "ctx" ->          \* a new process
            /\ drives' = <<>> /\ nimg' = 0 /\ devOf' = <<>> /\ group' = NoGroup /\ selected' = {} /\ bad' = bad
       [] ev.e = "connect" ->
-           /\ group' = [k |-> ev.k, how |-> ev.how, old |-> drives, n |-> 0]
+           /\ group' = [k |-> ev.k, how |-> ev.how, old |-> drives, n |-> 0, set |-> {}]
            /\ bad' = IF group.n < group.k THEN bad \cup {l} ELSE bad            \* the previous group was left incomplete
            /\ UNCHANGED <<drives, nimg, devOf, selected>>
       [] ev.e = "attach" ->
-           LET new == Ext(drives, ev.drive, [img |-> nimg, side |-> group.n])
+           \* the surfaces of the image are numbered here by drive order (the hook does not say which surface it is), so what is
+           \* judged is the set of numbers the image got: append-only, injective, and the policy's rule
+           LET D == group.set \cup {ev.drive}
+               rank(d) == Cardinality({e \in D : e < d})
+               new == [d \in DOMAIN group.old \cup D |-> IF d \in D THEN [img |-> nimg, side |-> rank(d)] ELSE group.old[d]]
                complete == group.n + 1 = group.k
                ok == /\ group.k > 0 /\ group.n < group.k
-                     /\ ev.drive \notin DOMAIN drives
+                     /\ ev.drive \notin DOMAIN group.old /\ ev.drive \notin group.set
                      /\ complete => RAttach(group.old, new, group.how, nimg, group.k) IN
-           /\ drives' = new /\ devOf' = Ext(devOf, ev.drive, ev.dev)
-           /\ group' = [group EXCEPT !.n = @ + 1]
+           /\ drives' = IF complete THEN new ELSE drives
+           /\ devOf' = Ext(devOf, ev.drive, ev.dev)
+           /\ group' = [group EXCEPT !.n = @ + 1, !.set = D]
            /\ nimg' = IF complete THEN nimg + 1 ELSE nimg
            /\ bad' = IF ok THEN bad ELSE bad \cup {l}
            /\ UNCHANGED selected
